@@ -123,7 +123,8 @@ Inductive ck_query :=
 Inductive ck_ans :=
 | KaKeys (r : res (list skey))
 | KaRegs (r : res (list addr))
-| KaBool (b : bool).
+| KaBool (b : bool)
+| KaTrap.
 
 Definition ck_answer (s : ck_state) (q : ck_query) : ck_ans :=
   match q with
@@ -138,5 +139,6 @@ Definition ck_ans_eqb (a b : ck_ans) : bool :=
   | KaKeys x, KaKeys y => res_eqb (list_eqb skey_eqb) x y
   | KaRegs x, KaRegs y => res_eqb (list_eqb N.eqb) x y
   | KaBool x, KaBool y => Bool.eqb x y
+  | KaTrap, KaTrap => true
   | _, _ => false
   end.
